@@ -302,7 +302,9 @@ class Contentline(str):
         # TODO: after unicode only, remove this
         # Convert back to unicode, after to_ical encoded it.
         name = to_unicode(name)
-        values = to_unicode(values)
+        # the value was encoded by to_ical(): a leading U+FEFF is content here,
+        # not a byte order mark to strip
+        values = to_unicode(values, encoding=DEFAULT_ENCODING)
         if params:
             params = to_unicode(params.to_ical(sorted=sorted))
             return cls(f'{name};{params}:{values}')
